@@ -7,6 +7,8 @@ CONSTANTS
   MaxReq = 0
   NPkts = 1
   CtxMayExpire = FALSE
+  PlainShut = {}
+  DeadlinesMayFire = FALSE
   ClientMayClose = FALSE
   HandlerMayClose = FALSE
   HandlerMayHijack = FALSE
